@@ -62,11 +62,26 @@ Outcome read(ReadSpec const& s, Bytes& b)
     Outcome o; o.cls = "skipped:type"; return o;
 }
 
-std::vector<Field> fields(Bytes const&)
+std::vector<Field> fields(Bytes const& b)
 {
-    return {{"idlen", 0, 1, false}, {"cmaptype", 1, 1, false}, {"imgtype", 2, 1, false}, {"cmapstart", 3, 2, false}, {"cmaplen", 5, 2, false},
+    std::vector<Field> f = {{"idlen", 0, 1, false}, {"cmaptype", 1, 1, false}, {"imgtype", 2, 1, false}, {"cmapstart", 3, 2, false}, {"cmaplen", 5, 2, false},
             {"cmapdepth", 7, 1, false}, {"xorigin", 8, 2, false}, {"yorigin", 10, 2, false}, {"width", 12, 2, false}, {"height", 14, 2, false},
-            {"bpp", 16, 1, false}, {"descriptor", 17, 1, false}, {"packet0", 18, 1, false}, {"packet_late", 40, 1, false}};
+            {"bpp", 16, 1, false}, {"descriptor", 17, 1, false}};
+    if (b.size() < 18) return f;
+    if (b[2] == 10)
+    {
+        // run-length data: every packet header is a field (the last packets are the ones that can cross the image end)
+        size_t off = 18 + b[0], bpp = b[16] / 8; long total = (long)get16le(b, 12) * get16le(b, 14), done = 0; int k = 0;
+        while (off < b.size() && done < total && k < 24 && bpp)
+        {
+            f.push_back({"pkt" + std::to_string(k++), off, 1, false});
+            unsigned c = b[off]; long n = (c & 0x7F) + 1;
+            off += 1 + ((c & 0x80) ? bpp : (size_t)n * bpp);
+            done += n;
+        }
+    }
+    else { f.push_back({"data0", 18, 1, false}); }
+    return f;
 }
 long declared(Bytes const& b) { return b.size() < 16 ? -1 : (long)get16le(b, 12) * (long)get16le(b, 14); }
 
@@ -76,6 +91,8 @@ Outcome roundtrip(Json const& plan)
     gil::image_write_info<Tag> info;
     if (v == "rgb8") return RoundTrip<Tag, gil::rgb8_image_t, true>::run(plan, "tga", info);
     if (v == "rgba8") return RoundTrip<Tag, gil::rgba8_image_t, true>::run(plan, "tga", info);
+    if (v == "bgr8") return RoundTrip<Tag, gil::bgr8_image_t, true>::run(plan, "tga", info);
+    if (v == "bgra8") return RoundTrip<Tag, gil::bgra8_image_t, true>::run(plan, "tga", info);
     Outcome o; o.cls = "skipped:type"; return o;
 }
 
@@ -105,7 +122,7 @@ Format make_format()
     f.native_types = {"rgb8", "rgba8"};
     f.convert_types = {"gray8", "rgb8", "rgba8"};
     f.devices = {"FILE", "istream", "name"};
-    f.write_types = {"rgb8", "rgba8"};
+    f.write_types = {"rgb8", "rgba8", "bgr8", "bgra8"};
     f.roundtrip = roundtrip; f.paths = paths;
     f.make = make; f.read = read; f.fields = fields; f.declared_pixels = declared;
     return f;
